@@ -12,7 +12,7 @@ RULE = (
     "seeded random decompositions: a periodic or open rectangular domain of Kx x Ky in {1x1,2x1,1x2,3x1,2x2,3x2,2x3} "
     "square faces of N in 2..5 cells, an independent D4 orientation per face drawn until every junction is expressible "
     "in the face_connections format (table derived from the geometry), face dimension at a random place among 0-2 extra "
-    "dims; one of diff/interp/min/max of a cell-centred field along X or Y to left or right, fill/extend/periodic rule on "
+    "dims; one of diff/interp/min/max of a cell-centred field along X or Y to left, right or outer (both edges of every face), optionally on a grid with an unlinked third axis Z (operation along Z; or along X/Y of a surface field after an operation along Z), fill/extend/periodic rule on "
     "unlinked edges given at grid or call level; unique-id or exact-safe data. Oracle: every target point takes the two "
     "adjacent local cells; a cell outside the face is the geometric neighbour in the undivided global field when the edge "
     "is linked, else the boundary rule on the face's own array; all cells of all faces compared bit-exactly. Class = "
@@ -33,7 +33,7 @@ def gen_case(rng, i, tier):
     order = ["face", "y", "x"] + list(extra)
     rng.shuffle(order)
     return {"Kx": Kx, "Ky": Ky, "N": N, "periodic": per, "orients": topo.orient_ids(T), "extra": extra, "order": order,
-            "op": rng.choice(["diff", "interp", "min", "max"]), "axis": rng.choice("XY"), "to": rng.choice(["left", "right"]),
+            "op": rng.choice(["diff", "interp", "min", "max"]), "axis": rng.choice("XY"), "to": rng.choice(["left", "right", "outer"]),
             "rule": {a: rng.choice(gen.RULES) for a in "XY"}, "fill": float(rng.choice([-9, -2.5, 0, 4])),
             "rule_level": rng.choice(["grid", "call"]), "data": rng.choice(["unique", "quarter"]), "dseed": rng.getrandbits(31),
             "to_default": rng.random() < 0.15,
@@ -70,10 +70,10 @@ def run_case(ctx, desc):
     t = T.table()
     assert t is not None
     ds = xr.Dataset(coords={
-        "x": ("x", np.arange(N) + 0.5), "xl": ("xl", np.arange(N) * 1.0), "xr": ("xr", np.arange(N) + 1.0),
-        "y": ("y", np.arange(N) + 0.5), "yl": ("yl", np.arange(N) * 1.0), "yr": ("yr", np.arange(N) + 1.0),
+        "x": ("x", np.arange(N) + 0.5), "xl": ("xl", np.arange(N) * 1.0), "xr": ("xr", np.arange(N) + 1.0), "xo": ("xo", np.arange(N + 1) * 1.0),
+        "y": ("y", np.arange(N) + 0.5), "yl": ("yl", np.arange(N) * 1.0), "yr": ("yr", np.arange(N) + 1.0), "yo": ("yo", np.arange(N + 1) * 1.0),
         "face": ("face", np.arange(T.nf)), **{e: (e, np.arange(n) * 1.0) for e, n in desc["extra"].items()}})
-    cm = {"X": {"center": "x", "left": "xl", "right": "xr"}, "Y": {"center": "y", "left": "yl", "right": "yr"}}
+    cm = {"X": {"center": "x", "left": "xl", "right": "xr", "outer": "xo"}, "Y": {"center": "y", "left": "yl", "right": "yr", "outer": "yo"}}
     z = desc.get("zaxis")
     if z:
         return run_with_z(ctx, desc, T, t, ds, cm, z)
@@ -130,12 +130,14 @@ def run_case(ctx, desc):
             kk = min(max(idx, 0), N - 1) if rule[a] == "extend" else idx % N
             return F[f, j, kk] if a == "X" else F[f, kk, i]
 
-        exp = np.empty((T.nf, N, N))
+        # to 'outer' the result has N+1 points along the axis: both edges of the face need the neighbour (or the rule)
+        nA = N + 1 if to == "outer" else N
+        exp = np.empty((T.nf, nA if a == "Y" else N, nA if a == "X" else N))
         for f in range(T.nf):
-            for j in range(N):
-                for i in range(N):
+            for j in range(exp.shape[1]):
+                for i in range(exp.shape[2]):
                     k = i if a == "X" else j
-                    lo, hi = (k - 1, k) if to == "left" else (k, k + 1)
+                    lo, hi = (k, k + 1) if to == "right" else (k - 1, k)
                     l = cell(f, lo, j) if a == "X" else cell(f, i, lo)
                     r = cell(f, hi, j) if a == "X" else cell(f, i, hi)
                     exp[f, j, i] = fop(l, r)
@@ -208,16 +210,23 @@ def run_with_z(ctx, desc, T, t, ds, cm, z):
             ctx.violation("unconnected-axis-plain-stencil", f"{op} along Z (rule {z['rule']}) on a face-connected grid differs from the plain stencil")
         return
     a, to = desc["axis"], desc["to"]
-    ckey = ("z-axis", "along-" + a, op, to, (desc["Kx"], desc["Ky"]), desc["periodic"])
+    # in a third of these cases the grid has already been used along Z, and the horizontal operation is then asked of a
+    # field without a vertical dimension (a surface field): an earlier call changes nothing about a later one
+    surface_after_z = desc["dseed"] % 3 == 0
+    ckey = ("z-axis", "along-" + a, op, to, (desc["Kx"], desc["Ky"]), desc["periodic"], surface_after_z)
     ctx.judged(ckey, True)
     try:
-        r = getattr(g, op)(da, a, to=to)
+        if surface_after_z:
+            getattr(g, op)(da, "Z", to="left")
+            r = getattr(g, op)(da.isel(z=0, drop=True), a, to=to).expand_dims("z")
+        else:
+            r = getattr(g, op)(da, a, to=to)
     except Exception as e:
-        ctx.violation("well-posed-call-returns", f"{op} along {a} with an extra axis Z on the grid raised {type(e).__name__}: {str(e)[:200]}")
+        ctx.violation("well-posed-call-returns", f"{op} along {a} with an extra axis Z on the grid{' (surface field, after an operation along Z)' if surface_after_z else ''} raised {type(e).__name__}: {str(e)[:200]}")
         return
     nd = cm[a][to]
     R = r.transpose("z", "face", *(["y", nd] if a == "X" else [nd, "x"])).values
-    for k in range(nz):
+    for k in range(1 if surface_after_z else nz):
         G, F = Gs[k], Fs[k]
 
         def cell(f, i, j):
@@ -233,11 +242,12 @@ def run_with_z(ctx, desc, T, t, ds, cm, z):
             kk = min(max(idx, 0), N - 1) if rule[a] == "extend" else idx % N
             return F[f, j, kk] if a == "X" else F[f, kk, i]
 
+        nA = N + 1 if to == "outer" else N
         for f in range(T.nf):
-            for j in range(N):
-                for i in range(N):
+            for j in range(nA if a == "Y" else N):
+                for i in range(nA if a == "X" else N):
                     q = i if a == "X" else j
-                    lo, hi = (q - 1, q) if to == "left" else (q, q + 1)
+                    lo, hi = (q, q + 1) if to == "right" else (q - 1, q)
                     l = cell(f, lo, j) if a == "X" else cell(f, i, lo)
                     rr = cell(f, hi, j) if a == "X" else cell(f, i, hi)
                     if R[k, f, j, i] != fop(l, rr):
